@@ -263,7 +263,7 @@ def gen_image(rng, version):
         # DOS stub bytes that continue e_lfanew = e8 00 00 00 into the other architecture's bootstrap pattern (e8 00 00 00 00 5b)
         "opt_magic": rng.choice([None, None, None, 0, 0x10B, 0x20B, rng.randrange(0, 0x10000)]),
         "dos_stub_start": rng.choice([b"", b"", b"\x00\x5b", b"\x00\x5b\x89\xdf", b"\x55\x48\x89\xe5\x48\x81"]),
-        "compile_stamp": rng.choice([1, 2**32 - 1, rng.randrange(1, 2**32), (rng.randrange(1, 2**16) << 16) | rng.choice([0x8664, 0x014C])]),
+        "compile_stamp": rng.choice([0, 1, 2**32 - 1, rng.randrange(1, 2**32), (rng.randrange(1, 2**16) << 16) | rng.choice([0x8664, 0x014C])]),
         "export_stamp": rng.choice([rng.choice(stamps), rng.choice(stamps), rng.choice(stamps) + rng.choice([-1, 1]), 1, 2**32 - 1, rng.randrange(1, 2**32)]),
         "nsec": nsec, "export_section": rng.choice([None, 0, 1, nsec - 1, rng.randrange(0, nsec)]), "data": data,
         "prepend": prepend, "append": append, "nulpad": bytes(rng.choice([0, 0, 3, 64])) if append else bytes(rng.choice([0, 0, 0, 16])),
